@@ -78,6 +78,7 @@ def catalogue(tier):
 
 
 INVS = {"C07": ["Ok_C07"], "C10": ["Ok_C10"], "C01": ["Ok_C01c", "Ok_C01q"], "C02": ["Ok_C02c"], "C09": ["Ok_C09c"]}
+# (random blocks use up to 16 connections)
 
 
 def run_conc(work, prop, tier, replay_scenarios=None):
